@@ -2043,18 +2043,25 @@ impl GlyphsV2OrderedAxes for RawInstance {
     }
 }
 
-fn parse_node_from_string(value: &str) -> Node {
+fn parse_node_from_string(value: &str) -> Result<Node, crate::plist::Error> {
+    let bad_node = || crate::plist::Error::Parse(format!("invalid node '{value}'"));
     let mut spl = value.splitn(3, ' ');
-    let x = spl.next().unwrap().parse().unwrap();
-    let y = spl.next().unwrap().parse().unwrap();
+    let x = spl
+        .next()
+        .and_then(|x| x.parse().ok())
+        .ok_or_else(bad_node)?;
+    let y = spl
+        .next()
+        .and_then(|y| y.parse().ok())
+        .ok_or_else(bad_node)?;
     let pt = Point::new(x, y);
-    let mut raw_node_type = spl.next().unwrap();
+    let mut raw_node_type = spl.next().ok_or_else(bad_node)?;
     // drop the userData dict, we don't use it for compilation
     if raw_node_type.contains('{') {
         raw_node_type = raw_node_type.split('{').next().unwrap().trim_end();
     }
-    let node_type = raw_node_type.parse().unwrap();
-    Node { pt, node_type }
+    let node_type = raw_node_type.parse().map_err(|_| bad_node())?;
+    Ok(Node { pt, node_type })
 }
 
 fn parse_node_from_tokenizer(tokenizer: &mut Tokenizer<'_>) -> Result<Node, crate::plist::Error> {
@@ -2109,8 +2116,8 @@ impl FromPlist for Node {
         use crate::plist::Error;
         let tok = tokenizer.lex()?;
         let node = match &tok {
-            Token::Atom(value) => parse_node_from_string(value),
-            Token::String(value) => parse_node_from_string(value),
+            Token::Atom(value) => parse_node_from_string(value)?,
+            Token::String(value) => parse_node_from_string(value)?,
             Token::OpenParen => {
                 let node = parse_node_from_tokenizer(tokenizer)?;
                 tokenizer.eat(b')')?;
@@ -4334,6 +4341,13 @@ mod tests {
             },
             node
         );
+    }
+
+    #[test]
+    fn malformed_node_is_an_error_not_a_panic() {
+        for bad in ["354", "\"354 183\"", "\"354 x LINE\"", "\"354 183 WIGGLE\""] {
+            assert!(Node::parse_plist(bad).is_err(), "{bad}");
+        }
     }
 
     // unquoted infinity likes to parse as a float which is suboptimal for glyph names. Survive.
